@@ -50,7 +50,7 @@ theorem off_nat (u k : Nat) : off u k = (u + k) % 65536 := by unfold off; omega
 theorem wsub_one_off (u : Nat) (hu : u < 65536) : wsub u 1 = off u (-1) := by unfold wsub off; omega
 
 /-- arithmetic core: acknowledging `k` segments and clamping moves `last_sent − snd_una` from `d` to `max (d − k) (−1)` -/
-theorem clamp_range (ls u len k : Nat) (hls : ls < 65536) (hu : u < 65536) (hlen : len ≤ 16000) (hk : k ≤ len)
+theorem clamp_range (ls u len k : Nat) (hls : ls < 65536) (hu : u < 65536) (hlen : len ≤ 16384) (hk : k ≤ len)
     (hlo : -1 ≤ seqSub ls u) (hhi : seqSub ls u ≤ len) :
     VSock.clampLastSent ls (advance u k) < 65536 ∧
     seqSub (VSock.clampLastSent ls (advance u k)) (advance u k) = max (seqSub ls u - k) (-1) := by
@@ -87,7 +87,7 @@ structure LInv (v : VSock) : Prop where
   sinv : SInv v.segs
   una : v.segs.sndUna < 65536
   ls : v.lastSentSeqNr < 65536
-  len : v.segs.segs.length ≤ 16000
+  len : v.segs.segs.length ≤ 16384
   lo : -1 ≤ seqSub v.lastSentSeqNr v.segs.sndUna
   hi : seqSub v.lastSentSeqNr v.segs.sndUna ≤ v.segs.segs.length
   /-- the never-sent tail of the queue lies entirely beyond `last_sent_seq_nr` (what `discard_unsent` relies on) -/
@@ -436,5 +436,96 @@ theorem recoveryLoop_linv (hd : Header) (mss : Nat) (views : List SegView) (v : 
           · rename_i v1 c1 hsd
             obtain ⟨h1, hval⟩ := sendData_linv v c hd seg v1 c1 .sent h hseg hsd
             exact ih v1 c1 _ h1 (fun w hw => hval w (hrest w hw)) hl
+
+/-! ### The cap on the number of queued segments (D25)
+
+`LInv.len` was an assumption until D25: nothing in the code bounded the number of queued segments (with Nagle
+disabled and one-byte writes a 32 KiB buffer holds 32768 of them), and beyond 32767 outstanding segments the 16-bit
+distances the sender computes over its own queue wrap. The segmentation loop now stops at `MAX_TX_SEGMENTS`; the
+theorems below make `len ≤ 16384` an invariant the loop keeps, and tie the literal to the regenerated constant. -/
+
+theorem max_tx_segments_value : Gen.MAX_TX_SEGMENTS = 16384 := by decide
+
+/-- every distance the sender computes over its own queue (`last_sent - snd_una ∈ [-1, len]`, `fin - snd_una = len`)
+is within the crate's tolerance -/
+theorem tx_queue_within_tolerance : Gen.MAX_TX_SEGMENTS + 1 ≤ Gen.WRAP_TOLERANCE := by decide
+
+theorem tu_append_le (l : List Segment) (g : Segment) : trailingUnsent (l ++ [g]) ≤ trailingUnsent l + 1 := by
+  induction l with
+  | nil => simp only [List.nil_append, trailingUnsent]; split <;> simp
+  | cons a rest ih =>
+    have hle := tu_le rest
+    simp only [List.cons_append, trailingUnsent]
+    by_cases hc : (rest ++ [g]).all (fun x => x.sent = .notSent) = true ∧ a.sent = .notSent
+    · have hr : rest.all (fun x => x.sent = .notSent) = true ∧ a.sent = .notSent := by
+        refine ⟨?_, hc.2⟩
+        have := hc.1
+        simp only [List.all_append, Bool.and_eq_true] at this
+        exact this.1
+      simp only [hc, hr, and_self, if_true, List.length_append, List.length_singleton]
+      omega
+    · simp only [hc, if_false]
+      split <;> omega
+
+/-- **The segmentation loop keeps the invariant, including the bound on the queue length.** -/
+theorem segmentLoop_linv (fuel : Nat) (v : VSock) (remaining win : Nat) (h : LInv v) :
+    LInv (segmentLoop fuel v remaining win).1 := by
+  induction fuel generalizing v remaining win with
+  | zero => exact h
+  | succ fuel ih =>
+    unfold segmentLoop
+    split
+    · exact h
+    · rename_i hgo
+      dsimp only
+      split
+      · exact h.congr rfl rfl
+      · have hcap : v.segs.segs.length < 16384 := by
+          have := max_tx_segments_value
+          have h3 : v.segs.segs.length < Gen.MAX_TX_SEGMENTS := by
+            by_cases hh : v.segs.segs.length < Gen.MAX_TX_SEGMENTS
+            · exact hh
+            · exfalso; apply hgo; intro hcon; exact hh hcon.2.2
+          omega
+        have hlo := h.lo
+        have hhi := h.hi
+        have htail := h.tail
+        have step : ∀ (p : Nat) (pr : Bool) (ss' : SegSizes),
+            LInv { v with ss := ss', segs := v.segs.enqueue p pr } := by
+          intro p pr ss'
+          have hta := tu_append_le v.segs.segs { payloadSize := p, offsetAbs := v.segs.offset, isMtuProbe := pr }
+          constructor <;> dsimp only
+          · exact enqueue_inv _ _ _ h.sinv
+          · exact h.una
+          · exact h.ls
+          · simp only [Segments.enqueue, List.length_append, List.length_singleton]; omega
+          · exact hlo
+          · simp only [Segments.enqueue, List.length_append, List.length_singleton]; omega
+          · simp only [Segments.enqueue, List.length_append, List.length_singleton]; omega
+        split
+        · exact step _ _ _
+        · exact ih _ _ _ (step _ _ _)
+
+/-- the loop never grows the queue beyond the cap -/
+theorem segmentLoop_len_bound (fuel : Nat) (v : VSock) (remaining win : Nat) :
+    (segmentLoop fuel v remaining win).1.segs.segs.length ≤ max v.segs.segs.length Gen.MAX_TX_SEGMENTS := by
+  induction fuel generalizing v remaining win with
+  | zero => exact Nat.le_max_left _ _
+  | succ fuel ih =>
+    unfold segmentLoop
+    split
+    · exact Nat.le_max_left _ _
+    · rename_i hgo
+      dsimp only
+      have h3 : v.segs.segs.length < Gen.MAX_TX_SEGMENTS := by
+        by_cases hh : v.segs.segs.length < Gen.MAX_TX_SEGMENTS
+        · exact hh
+        · exfalso; apply hgo; intro hcon; exact hh hcon.2.2
+      split
+      · exact Nat.le_max_left _ _
+      · split
+        · simp only [Segments.enqueue, List.length_append, List.length_singleton]; omega
+        · refine Nat.le_trans (ih _ _ _) ?_
+          simp only [Segments.enqueue, List.length_append, List.length_singleton]; omega
 
 end UtpVerif.Props.C10Inv
